@@ -80,8 +80,10 @@ func (x *Exec) evalValue(fr *frame, v ssa.Value) Value {
 		return x.rangeInit(fr, i)
 	case *ssa.Next:
 		return x.next(fr, i)
-	case *ssa.MakeChan, *ssa.Select:
-		x.unsupported(fmt.Sprintf("%T in front end G", v))
+	case *ssa.MakeChan:
+		return x.makeChan(i, x.get(fr, i.Size))
+	case *ssa.Select:
+		return x.selectStmt(fr, i)
 	}
 	x.unsupported(fmt.Sprintf("value instruction %T", v))
 	return nil
@@ -124,7 +126,11 @@ func (x *Exec) unop(fr *frame, i *ssa.UnOp) Value {
 	case token.XOR:
 		return smt.Not(v.(*smt.Term))
 	case token.ARROW:
-		x.unsupported("channel receive in front end G builtin model")
+		rv, ok := x.chanRecvVal(v)
+		if i.CommaOk {
+			return Agg{rv, ok}
+		}
+		return rv
 	}
 	x.unsupported("unop " + i.Op.String())
 	return nil
